@@ -107,8 +107,12 @@ KERNELS = [
       [("feature1", "Z"), ("feature2", "Z")], G, _P),
     K("src_pair_key_hi", PWC, r"const auto key\s*=\s*std::make_pair\(std::min\(feature1, feature2\),\s*(.*?)\);", [],
       [("feature1", "Z"), ("feature2", "Z")], G, _P),
-    K("src_pair_keep_order", PWC, r"const auto value\s*=\s*\((.*?)\)\s*\?\s*std::make_pair\(i1, i2\)\s*:\s*std::make_pair\(i2, i1\);", [],
-      [("feature1", "Z"), ("feature2", "Z")], G, _P),
+    # the value stored for a key: (row of mapping1, row of mapping2), never swapped (repo fix: the swapped pair indexed
+    # mapping1 with a row number of mapping2)
+    K("src_pair_value_first", PWC, r"upairs\.try_emplace\(key,\s*std::make_pair\((.*?),\s*i2\)\);", [],
+      [("i1", "Z"), ("i2", "Z")], G, _P),
+    K("src_pair_value_second", PWC, r"upairs\.try_emplace\(key,\s*std::make_pair\(i1,\s*(.*?)\)\);", [],
+      [("i1", "Z"), ("i2", "Z")], G, _P),
     K("src_grad_applies", GRC, r"feature_mapping_t\{count, 7\};.*?if \((.*?)\)\s*\{",
       [(r"mapping\(i, 3\)", "rows"), (r"mapping\(i, 4\)", "cols")], [("rows", "Z"), ("cols", "Z")], G, _P),
     K("src_grad_count", GRC, r"count\s*\+=\s*(.*?);", [], [("channels", "Z")], G, _P),
